@@ -15,7 +15,7 @@ sys.path.insert(0, VERIF)
 WORK_ITEM_BUDGET_S = 420
 
 CONTRACT_MODULES = ['extent', 'field', 'util', 'helper', 'fourier', 'propagate', 'wavefront', 'plane',
-                    'ptype', 'zernike', 'detector', 'radiometry', 'shape', 'segmented', 'wfe', 'convolvable']
+                    'ptype', 'zernike', 'detector', 'radiometry', 'shape', 'segmented', 'wfe', 'convolvable', 'energy', 'stochastic', 'segment']
 
 
 def build_world():
@@ -288,7 +288,8 @@ def run_property(prop_id, tier='quick', seed=0, jobs=None):
 
     lines = []
     exit_code = 0
-    os.makedirs(os.path.join(VERIF, 'replays', prop_id), exist_ok=True)
+    OUT = os.environ.get('LVC_OUT', VERIF)      # evidence/ and replays/ root (scratch runs of tools/ redirect it)
+    os.makedirs(os.path.join(OUT, 'replays', prop_id), exist_ok=True)
     for (obname, wit), n in sorted(known_seen.items()):
         what = [f['what'] for f in kf['findings'] if (f['property'] == prop_id or prop_id in f.get('also_seen_in', [])) and f['witness'] == wit
                 and _listed({(f['obligation'], wit)}, obname, wit)]
@@ -299,7 +300,7 @@ def run_property(prop_id, tier='quick', seed=0, jobs=None):
         if key in reported:
             continue
         reported.add(key)
-        path = os.path.join(VERIF, 'replays', prop_id, _safe(ob['name']) + '.json')
+        path = os.path.join(OUT, 'replays', prop_id, _safe(ob['name']) + '.json')
         rp = ob.get('replay') or {}
         json.dump({'property': prop_id, 'obligation': ob['name'], 'function': fn, 'solver': ob['solver'],
                    'counter_model': ob.get('model'), 'info': ob.get('info'), 'replay': rp,
@@ -312,7 +313,7 @@ def run_property(prop_id, tier='quick', seed=0, jobs=None):
             ob['name'], ob['solver'], json.dumps(ob.get('model'))[:300]))
         exit_code = 1
     for b in bviol:
-        path = os.path.join(VERIF, 'replays', prop_id, _safe('bounded.' + b['name']) + '.json')
+        path = os.path.join(OUT, 'replays', prop_id, _safe('bounded.' + b['name']) + '.json')
         json.dump({'property': prop_id, 'obligation': 'bounded:' + b['name'], 'replay': b}, open(path, 'w'),
                   indent=1, default=str)
         lines.append('VIOLATION property=%s replay=%s' % (prop_id, path))
@@ -360,8 +361,8 @@ def run_property(prop_id, tier='quick', seed=0, jobs=None):
         'wall_s': round(wall, 3),
         'violations': sum(1 for l in lines if l.startswith('VIOLATION')),
     }
-    os.makedirs(os.path.join(VERIF, 'evidence'), exist_ok=True)
-    json.dump(evidence, open(os.path.join(VERIF, 'evidence', prop_id + '.json'), 'w'), indent=1, default=str)
+    os.makedirs(os.path.join(OUT, 'evidence'), exist_ok=True)
+    json.dump(evidence, open(os.path.join(OUT, 'evidence', prop_id + '.json'), 'w'), indent=1, default=str)
     for l in lines:
         print(l)
     print('%s tier=%s functions=%d paths=%d obligations=%d discharged=%d failed=%d undecided=%d known=%d wall=%.1fs exit=%d'
